@@ -45,8 +45,8 @@ def run(tier):
       'history_harnesses': len(names),
       'history_bound': 'H<=%d requests over 5 functions x 4 option sets (every history enumerated by the solver)' % H,
       'histories': n_hist,
-      'converted_call_histories': '3 requests over 2 functions sharing code x 2 option sets x 3 context statuses '
-                                  '(12 harnesses x 144 continuations), real api._TRANSPILER and conversion._ALLOWLIST_CACHE',
+      'converted_call_histories': '3 requests over 3 functions sharing code (one marked as artifact) x 2 option sets x 3 context statuses '
+                                  '(18 harnesses x 324 continuations), real api._TRANSPILER and conversion._ALLOWLIST_CACHE',
       'reachability_twin': twin.get('verdict'),
       'outside_bounds': 'weak-reference collection concurrent with a lookup; more than 3 threads; preemption '
                         'inside a single C-level dict operation; converted_call allow-list cache under threads',
